@@ -35,6 +35,8 @@ TEXTS = [
     's(x). s(y). s(z). ac(x,or(y,neg(z))). ac(y,x). ac(z,and(x,y)).',
     # four statements whose conditions share sub-diagrams and differ below them (the bridge translates diagram by diagram)
     's(a). s(b). s(c). s(d). ac(a,neg(b)). ac(b,neg(a)). ac(c,and(a,b)). ac(d,and(a,neg(b))).',
+    # quoted labels keep their blanks: "a b" and ab are different statements
+    's("a b"). s(ab). s(c). ac("a b",c(v)). ac(ab,c(f)). ac(c,neg("a b")).',
 ]
 MALFORMED = ['s(a). s(b). ac(a,neg(b). ac(b,neg(a)).', 's(a) ac(a,a).', 's(a). ac(a,nand(a,a)).']
 
@@ -51,13 +53,15 @@ def oracle(text):
 
 
 def parse_line(line, names):
-    toks = line.split(' ')
-    if toks[-1] != '': return None
-    out = {}
-    for t in toks[:-1]:
-        m = re.fullmatch(r'([TFu])\((.*)\)', t)
-        if not m or m.group(2) not in names or m.group(2) in out: return None
-        out[m.group(2)] = m.group(1)
+    """X(name) X(name) ... with every statement once; names may contain blanks and brackets, so the line is read against the known names"""
+    out = {}; i = 0
+    by_len = sorted(names, key=len, reverse=True)
+    while i < len(line):
+        if line[i] not in 'TFu' or line[i + 1:i + 2] != '(': return None
+        for nm in by_len:
+            if line.startswith(nm + ') ', i + 2) and nm not in out:
+                out[nm] = line[i]; i += 2 + len(nm) + 2; break
+        else: return None
     if len(out) != len(names): return None
     return frozenset(out.items())
 
@@ -172,8 +176,9 @@ def export_job(e, p):
         if x[0] == 'exists' and x[2] is False: absent.add(x[1])
         if x[0] == 'exists' and x[2] is True: absent.discard(x[1])
         if x[0] == 'create' and (x[1] not in absent or p.get('canary')):
-            report(e, 'export-overwrites', what='--export %s: the file is created (truncated) although it %s' % (x[1], 'exists' if any(y[0] == 'exists' and y[1] == x[1] for y in ev) else 'was never tested for existence'),
-                   case={'text': text, 'mode': p.get('mode', 'naive'), 'sort': 'none', 'flags': sorted(f for f, b in sym.items() if sat_model(e, b) is not None), 'export_existing': True}, role='export')
+            report(e, 'export-overwrites', what='--export %s: the file %s is created (truncated) although it %s' % (p.get('export'), x[1], 'exists' if any(y[0] == 'exists' and y[1] == x[1] for y in ev) else 'was never tested for existence'),
+                   case={'text': text, 'mode': p.get('mode', 'naive'), 'sort': 'none', 'flags': sorted(f for f, b in sym.items() if sat_model(e, b) is not None), 'export_existing': True,
+                         'export_arg': p.get('export'), 'created': x[1]}, role='export')
     return {'events': [x[0] for x in ev]}
 
 
@@ -182,8 +187,9 @@ def replay_export(ctx, v):
     binp = cli_binary(ctx); case = v['case']
     with tempfile.TemporaryDirectory() as d:
         fn = os.path.join(d, 'input.adf'); open(fn, 'w').write(case['text'])
-        out = os.path.join(d, 'out.json'); open(out, 'w').write('SENTINEL')
-        args = [binp, '--lib', case['mode'], '--export', out] + [CLI[f] for f in case['flags']] + [fn]
+        # the file that the front end was seen to create exists beforehand; the argument is the name the user typed
+        out = os.path.join(d, case.get('created', 'out.json')); os.makedirs(os.path.dirname(out), exist_ok=True); open(out, 'w').write('SENTINEL')
+        args = [binp, '--lib', case['mode'], '--export', os.path.join(d, case.get('export_arg') or 'out.json')] + [CLI[f] for f in case['flags']] + [fn]
         r = subprocess.run(args, capture_output=True, text=True, timeout=60, env=dict(os.environ, RUST_LOG='error'))
         after = open(out).read()
     if after != 'SENTINEL': return 'reproduced', {'args': args[1:], 'problems': ['the existing export file was overwritten (now %d bytes)' % len(after)]}
